@@ -15,11 +15,26 @@ type oaChecker struct {
 	visiting                                          map[string]bool
 }
 
+// typeKey: expected compiled name of the type defined for a named schema. For the Go
+// importer the "_" prefix of utils.go getSyslTypeName (names starting with a native type
+// name) applies to types written as "!type" (objects, allOf); aliases are written under
+// their safe name.
 func (x *oaChecker) typeKey(name string) string {
 	if x.d.V == 2 {
+		if t := x.d.schema(name); t != nil && t.K != "obj" && t.K != "allof" {
+			return goFieldKeyNoSuffix(name)
+		}
 		return goTypeKey(name)
 	}
 	return arraiKey(name)
+}
+
+func (x *oaChecker) targetClass(name string) string {
+	c := "target-name=" + nameClass(name)
+	if t := x.d.schema(name); t != nil {
+		c += ",target=" + schemaKind2(t)
+	}
+	return c
 }
 
 func (x *oaChecker) fieldKey(name string) string {
@@ -111,7 +126,7 @@ func (x *oaChecker) wantOf(s *oaSchema) want {
 	case "enum":
 		return want{Prim: "STRING", Desc: "enum"}
 	case "ref":
-		return want{RefKey: x.typeKey(s.Ref), Desc: "ref"}
+		return want{RefKey: x.typeKey(s.Ref), Desc: "ref", RefName: s.Ref}
 	case "obj":
 		return want{Inline: s, Desc: "nested-object"}
 	case "arr":
@@ -167,18 +182,14 @@ func (x *oaChecker) checkUse(where, what string, nameCls string, w want, got tyU
 	case w.RefKey != "":
 		g := x.follow(got, func(u tyUse) bool { return len(u.Ref) == 1 && u.Ref[0] == w.RefKey })
 		if len(g.Ref) != 1 || g.Ref[0] != w.RefKey {
-			tgt := "ref"
-			if x.af.Types[w.RefKey] == nil {
-				tgt = "ref-to-missing-type"
-			}
-			x.fail(what+"-reference", cons+","+tgt, fmt.Sprintf("%s: expected %s, compiled %s", where, w, got))
+			x.fail(what+"-reference", w.Desc+","+x.targetClass(w.RefName), fmt.Sprintf("%s: expected %s, compiled %s", where, w, got))
 			return
 		}
 		if g.Seq != w.Seq {
 			x.fail(what+"-arrayness", cons, fmt.Sprintf("%s: expected %s, compiled %s", where, w, got))
 		}
 		if x.af.Types[w.RefKey] == nil {
-			x.fail(what+"-reference", cons+",dangling", fmt.Sprintf("%s: reference to %s which the output does not define", where, w.RefKey))
+			x.fail(what+"-reference", w.Desc+",dangling,"+x.targetClass(w.RefName), fmt.Sprintf("%s: reference to %s which the output does not define", where, w.RefKey))
 		}
 	default:
 		g := x.follow(got, func(u tyUse) bool { return w.AltRef != "" && len(u.Ref) == 1 && u.Ref[0] == w.AltRef })
@@ -475,7 +486,7 @@ func (x *oaChecker) checkResp(key string, ep *epFact, rs *oaResp) {
 		case w.RefKey != "":
 			if t == w.RefKey && c.Seq == w.Seq {
 				if x.af.Types[w.RefKey] == nil {
-					x.fail("response-type", cons+",dangling,name="+nameClass(refName(rs.S)), fmt.Sprintf("%s: returns %s which the output does not define", where, t))
+					x.fail("response-type", cons+",dangling,"+x.targetClass(refName(rs.S)), fmt.Sprintf("%s: returns %s which the output does not define", where, t))
 				}
 				return
 			}
@@ -488,7 +499,7 @@ func (x *oaChecker) checkResp(key string, ep *epFact, rs *oaResp) {
 		}
 	}
 	if w.RefKey != "" {
-		cons += ",name=" + nameClass(refName(rs.S))
+		cons += "," + x.targetClass(refName(rs.S))
 	}
 	x.fail("response-type", cons, fmt.Sprintf("%s: expected type %q, returns: %v", where, w.String(), rets(cands)))
 }
